@@ -375,6 +375,11 @@ class MTVRPEnv(RL4COEnvBase):
                 "demand_backhaul",
                 td_load["demand_backhaul"] / td_load["capacity_original"],
             )
+            # the capacity is expressed in the same (normalised) unit as the demands
+            td_load.set(
+                "vehicle_capacity",
+                td_load["vehicle_capacity"] / td_load["capacity_original"],
+            )
         return td_load
 
     @staticmethod
